@@ -52,6 +52,7 @@ type Engine struct {
 	TypeInvs    []*TypeInv
 	NonNil      map[string]bool
 	Frozen      map[string]bool
+	GlobalFacts []*GlobalFact
 	MaxPaths  int
 	InlineMax int
 	ModelTerms func(o *Oblig) []*Term
